@@ -73,6 +73,9 @@ def shard_slice(seq, shard, nshards):
 LABELS = ["a", "b", "c", "aa", "x y", "", "é", "7"]
 
 
+BIG_TIER_RATE = 0.004
+
+
 def rand_time_source(rng):
     """A function producing non-dyadic timestamps of one 'flavour'."""
     flavour = rng.choice(["ms", "44100", "cs", "digits17", "sum", "16000"])
@@ -96,6 +99,8 @@ def rand_interval_entries(rng, nmax=6, hi=5.0, labels=None, allow_blank=False, t
     if src is None:
         _, src = rand_time_source(rng)
     n = rng.randrange(0, nmax + 1)
+    if rng.random() < BIG_TIER_RATE:
+        n = rng.randrange(60, 200)  # an occasional tier of realistic size (a few hundred entries)
     k = 2 * n
     raw = sorted({src(hi) for _ in range(k * 2 + 2)})
     pts = []
@@ -121,6 +126,8 @@ def rand_point_entries(rng, nmax=6, hi=5.0, labels=None, src=None):
     if src is None:
         _, src = rand_time_source(rng)
     n = rng.randrange(0, nmax + 1)
+    if rng.random() < BIG_TIER_RATE:
+        n = rng.randrange(60, 200)
     pts = []
     for x in sorted({src(hi) for _ in range(n)}):
         # praatio's Point equality is tolerant (1e-14 abs / 1e-9 rel): points closer than that are the
